@@ -361,6 +361,94 @@ pub fn judge_step(
     }
 }
 
+/// Probe continuations used to decide whether two parser states BEHAVE differently (C17 speaks about
+/// results, not representation). Static part: short groups with the ids the alphabets use; dynamic
+/// part: the fragments around the open group's next expected number, as continuation and as final
+/// fragment.
+pub fn probe_set(m: &MState) -> Vec<Vec<(Vec<u8>, bool)>> {
+    use crate::spec::line::sentence;
+    let mut v: Vec<Vec<(Vec<u8>, bool)>> = Vec::new();
+    let ids: [&[u8]; 4] = [b"", b"5", b"0", b"3"];
+    for id in ids {
+        v.push(vec![(sentence(2, 2, id, b"pq", 0), false)]);
+        v.push(vec![(sentence(3, 2, id, b"pr", 0), false), (sentence(3, 3, id, b"ps", 0), false)]);
+        v.push(vec![(sentence(3, 3, id, b"pt", 0), false)]);
+        v.push(vec![
+            (sentence(2, 1, id, b"pu", 0), false),
+            (sentence(2, 2, id, b"pv", 0), false),
+        ]);
+    }
+    v.push(vec![(sentence(1, 1, b"", b"1000000000000000000000000000", 0), true)]);
+    if let MState::Open { id, last_k, .. } = m {
+        let idb: Vec<u8> = match id {
+            None => vec![],
+            Some(x) => x.to_string().into_bytes(),
+        };
+        for dk in [0u32, 1, 2] {
+            let k = *last_k as u32 + dk;
+            if k == 0 || k > 255 {
+                continue;
+            }
+            // as the final fragment of a group of k, and as a middle fragment followed by the final one
+            v.push(vec![(sentence(k.max(2), k, &idb, b"pw", 0), false)]);
+            if k < 255 {
+                v.push(vec![
+                    (sentence(255, k, &idb, b"px", 0), false),
+                    (sentence(k + 1, k + 1, &idb, b"py", 0), false),
+                ]);
+            }
+        }
+    }
+    v
+}
+
+/// Replay `ha` and `hb` on fresh parsers and compare their results on every probe continuation.
+pub fn states_differ(
+    ha: &[(Vec<u8>, bool)],
+    hb: &[(Vec<u8>, bool)],
+    probes: &[Vec<(Vec<u8>, bool)>],
+) -> Option<String> {
+    let run = |h: &[(Vec<u8>, bool)], cont: &[(Vec<u8>, bool)]| -> Vec<u64> {
+        let mut p = Parser::new();
+        for (l, d) in h {
+            let _ = p.parse(l, *d);
+        }
+        cont.iter().map(|(l, d)| p.parse(l, *d).digest()).collect()
+    };
+    for c in probes {
+        if run(ha, c) != run(hb, c) {
+            return Some(format!(
+                "results differ for the continuation {:?}",
+                c.iter().map(|(l, _)| esc_bytes(l)).collect::<Vec<_>>()
+            ));
+        }
+    }
+    None
+}
+
+/// A Debug difference after a no-trace line is not yet a verdict: keep the `asm.trace-*` findings
+/// only if `differs()` exhibits a behavioural difference. Returns true if they were dropped.
+pub fn confirm_traces(f: &mut Findings, differs: impl FnOnce() -> Option<String>) -> bool {
+    if !f.iter().any(|(_, sig, _)| sig.starts_with("asm.trace-")) {
+        return false;
+    }
+    match differs() {
+        Some(why) => {
+            for (_, sig, w) in f.iter_mut() {
+                if sig.starts_with("asm.trace-") {
+                    w.push_str(" | ");
+                    w.push_str(&why);
+                }
+            }
+            false
+        }
+        None => {
+            f.retain(|(_, sig, _)| !sig.starts_with("asm.trace-"));
+            true
+        }
+    }
+}
+
 pub struct ExploreCfg {
     pub name: String,
     pub letters: Vec<Letter>,
